@@ -60,11 +60,16 @@ def _quiet(f, *a, **k):
 
 def _recording(cls):
     class Rec(cls):
-        __slots__ = ("log",)
+        __slots__ = ("log", "breakdown")
 
         def mttkrp(self, U, n):
             self.log.append((int(n), [np.array(u, copy=True) for u in (U.factor_matrices if hasattr(U, "factor_matrices") else U)]))
-            return super().mttkrp(U, n)
+            out = super().mttkrp(U, n)
+            # an exactly-zero column: the least-squares update of that component is the zero vector, the component vanishes and
+            # the next Gram matrix is singular -- ALS is not defined from this guess (0/0 in the column scaling)
+            if isinstance(out, np.ndarray) and out.ndim == 2 and bool(np.any(np.all(out == 0, axis=0))):
+                self.breakdown = True
+            return out
     Rec.__name__ = cls.__name__
     return Rec
 
@@ -93,6 +98,7 @@ def run_case(case, ctx):
         D = _recording(ttb.sumtensor)([ttb.tensor(X.copy()), Kt.copy()])
         Xd = X + denote(Kt)
     D.log = []
+    D.breakdown = False
     dimorder = np.array(case["dimorder"])
     optd = None if case["optdims"] is None else np.array(case["optdims"])
     M0 = ttb.ktensor([rng.random((s, R)) for s in shape])
@@ -117,8 +123,13 @@ def run_case(case, ctx):
         guess_digest = state_digest(init_arg) if given else None
         np.random.seed(case["gseed"])
         D.log.clear()
+        D.breakdown = False
         r = ctx.call("cp_als", _quiet, ttb.cp_als, D, R, init=init_arg, maxiters=mi, stoptol=case["stoptol"], dimorder=dimorder.copy(),
                      optdims=None if optd is None else optd.copy(), fixsigns=case["fixsigns"], printitn=case["printitn"])
+        if D.breakdown:
+            ctx.tag("als-breakdown(zero MTTKRP column: out of domain)")
+            ctx.check(state_digest(D) == data_digest, "cp_als", "MUTATED", "data tensor changed by cp_als", who="data")
+            return
         if not r.ok:
             ctx.check(False, "cp_als", "RAISE:" + type(r.exc).__name__, f"{type(r.exc).__name__}: {r.exc} | {r.tb}", maxiters=mi)
             return
